@@ -6,7 +6,7 @@ def tampers(rec):
     return {s['a'] for s in steps if s['a'].startswith('Env')}
 
 def emitted(chk):
-    run = vcheck.TlcRun('MC_NixVersion', workers=8, seed=chk.seed)
+    run = vcheck.TlcRun('MC_NixVersion_t' if chk.thorough else 'MC_NixVersion', workers=8, seed=chk.seed)
     for rec in run:
         yield rec
     run.require_ok()
